@@ -111,6 +111,15 @@ func (w *World) facts(h int64, block *tmtypes.Block, res *BlockResult) *blockFac
 	return f
 }
 
+// totalsProps: a delegatee's redundant totals disagree with its own stake list. Always C11; after a block
+// with evidence or missed signatures it is the slashing/jailing step that left them behind (C14).
+func (f *blockFacts) totalsProps() []string {
+	if f.evidence || f.missed {
+		return []string{"C11", "C14"}
+	}
+	return []string{"C11"}
+}
+
 func (f *blockFacts) propsFor(kind string, addr *Addr) []string {
 	var out []string
 	add := func(p string, cond bool) {
@@ -299,10 +308,10 @@ func (w *World) checkCommitted(h int64, res *BlockResult, block *tmtypes.Block, 
 				}
 			}
 			if tot != d.TotalPower {
-				w.violate("stake.total", []string{"C11"}, h, "delegatee %s: total power %d, sum of bonded stakes %d", ToAddr(d.Addr).Hex(), d.TotalPower, tot)
+				w.violate("stake.total", f.totalsProps(), h, "delegatee %s: total power %d, sum of bonded stakes %d", ToAddr(d.Addr).Hex(), d.TotalPower, tot)
 			}
 			if self != d.SelfPower {
-				w.violate("stake.self", []string{"C11"}, h, "delegatee %s: self power %d, sum of own stakes %d", ToAddr(d.Addr).Hex(), d.SelfPower, self)
+				w.violate("stake.self", f.totalsProps(), h, "delegatee %s: self power %d, sum of own stakes %d", ToAddr(d.Addr).Hex(), d.SelfPower, self)
 			}
 			sumBonded += d.TotalPower
 		}
